@@ -363,8 +363,8 @@ type Runner struct {
 	// scheduler's own status / annotation patches - only after the NEXT session has taken its snapshot (slow watch).
 	// The snapshot then has to be completed from the status updater's record of applied-but-unobserved updates.
 	PodGroupLag bool
-	pcache     cache.Cache
-	pstop      chan struct{}
+	pcache      cache.Cache
+	pstop       chan struct{}
 }
 
 // Close stops a persistent cache.
